@@ -409,7 +409,25 @@ func (fx *FuncExec) builtin(st *State, reach *Term, name string, args []Value, c
 		}
 		fx.note("builtin clear on a map or untracked slice is a no-op in the model")
 		return reach, VTuple{nil}
-	case "delete", "close", "print", "println":
+	case "close":
+		// closing a channel has no effect on the modelled state, but it is counted: called(close.<Type.field>) says how
+		// often the channel in that field has been closed so far
+		fx.note("builtin close only counts (channels are not modelled)")
+		if len(args) == 1 {
+			if cv, ok := args[0].(VOpaque); ok {
+				if key := fx.chanKey[cv.t.id]; key != "" {
+					gk := "calls:" + normFuncName("close."+key)
+					cnt := ts.Int(0)
+					if v, ok := st.ghost[gk].(VInt); ok {
+						cnt = v.t
+					}
+					st.ghost[gk] = VInt{ts.Add(cnt, ts.Int(1))}
+					st.wheap["ghost:"+gk] = true
+				}
+			}
+		}
+		return reach, VTuple{nil}
+	case "delete", "print", "println":
 		fx.note("builtin " + name + " is a no-op in the model")
 		return reach, VTuple{nil}
 	case "recover":
